@@ -814,6 +814,12 @@ func wrapperKindsAgree(p *Program, r *Report, m *vmModel, rule string) {
 					if k, K := kindCmp(v); k != nil && (K == 20 || K == 22) {
 						w[K] = true
 					}
+					// the negated form of the test (`if k != Ptr { } else { deref }`) looks at the kind all the same
+					if bo, ok := v.(*ssa.BinOp); ok && bo.Op == token.NEQ {
+						if c, ok := bo.Y.(*ssa.Const); ok && c.Value != nil && bo.X.Type().String() == "reflect.Kind" && (c.Int64() == 20 || c.Int64() == 22) {
+							w[c.Int64()] = true
+						}
+					}
 				}
 			}
 		}
